@@ -292,7 +292,7 @@ class SchedulePool:
 
     def __init__(self, n, events):
         self.n, self.events = n, list(events)
-        self.completion_order, self.delivery_order, self.used = [], [], []
+        self.completion_order, self.delivery_order, self.used, self.shutdown_calls = [], [], [], []
 
     def _run(self, func, iterable, unordered=False):
         tasks = list(iterable)
@@ -331,19 +331,22 @@ class SchedulePool:
         order = self.delivery_order[n_before:]
         return [v for _, v in sorted(zip(order, vals))]
 
+    # a supplied pool is borrowed: the callee has no business shutting it down (PoolLife.tla).  The calls
+    # are recorded, not refused, so that the values are still compared.
     def close(self):
-        pass
+        self.shutdown_calls.append("close")
 
     def join(self):
         pass
 
     def terminate(self):
-        pass
+        self.shutdown_calls.append("terminate")
 
     def __enter__(self):
         return self
 
     def __exit__(self, *a):
+        self.shutdown_calls.append("__exit__")
         return False
 
     def __getattr__(self, name):
@@ -443,6 +446,111 @@ def pool_schedule_binding(chk, scheds, unordered, tier):
         probe.violation(dict(clause="pool-order", pool="schedule-driven-unordered"), "unordered delivery detected")
     chk.control("imap_unordered-schedules-produce-detectable-mismatch", bad_seen > 0 and bad_flagged == bad_seen and good_flagged == 0 and len(probe.violations) == 1,
                 f"{bad_flagged}/{bad_seen} out-of-order-delivery schedules flagged, {good_flagged}/{good_seen} in-order ones flagged")
+
+
+# ----------------------------------------------------------------------------- pool ownership over several calls
+def fifo_schedule(n):
+    """A complete imap schedule for n tasks with one worker: dispatch, complete, deliver in order."""
+    ev = []
+    for i in range(1, n + 1):
+        ev += [i, 10 + i, 20 + i]
+    return ev
+
+
+class ReusableSchedulePool(SchedulePool):
+    """SchedulePool that serves any number of imap calls (a fresh FIFO schedule per call) and, like a real
+    pool, refuses work after it was shut down."""
+
+    def __init__(self):
+        super().__init__(0, [])
+        self.closed = False
+
+    def _run(self, func, iterable, unordered=False):
+        if self.closed:
+            raise ValueError("Pool not running")
+        tasks = list(iterable)
+        self.n, self.events = len(tasks), fifo_schedule(len(tasks))
+        self.completion_order, self.delivery_order = [], []
+        return super()._run(func, tasks, unordered)
+
+    def close(self):
+        super().close()
+        self.closed = True
+
+    def terminate(self):
+        super().terminate()
+        self.closed = True
+
+    def __exit__(self, *a):
+        super().__exit__(*a)
+        self.closed = True
+        return False
+
+
+def pool_running(kind, pool):
+    """Functional probe: does the pool still accept work?"""
+    if kind == "sched":
+        return not pool.closed
+    try:
+        return pool.map(abs, [-1]) == [1]
+    except ValueError:
+        return False
+
+
+def pool_lifecycle_binding(chk, behs, tier):
+    """PoolLife.tla behaviours on a real process pool, a real thread pool and the harness pool."""
+    if impl()["diagnostics"].HAS_RAY:
+        chk.skip("ray installed: misorientation_indices bypasses a supplied pool, pool ownership binding not applicable")
+        return
+    rng = np.random.default_rng([abs(SEED), 14, 991])
+    stacks = {n: make_stack([5 + (3 * k + n) % 4 for k in range(n)], rng) for n in (1, 2, 3, 4)}
+    system = "triclinic"
+    exp = {n: expected_indices(st, system) for n, st in stacks.items()}
+    n_calls = 0
+    for bi, beh in enumerate(behs):
+        pools = {"proc": mp.get_context("fork").Pool(2), "thread": mpp.ThreadPool(2), "sched": ReusableSchedulePool()}
+        try:
+            for step, a in enumerate(beh):
+                if a["a"] == "ClientClose":
+                    if a["p"] == "sched":
+                        pools["sched"].closed = True
+                    else:
+                        pools[a["p"]].terminate()
+                        pools[a["p"]].join()
+                    continue
+                st = stacks[a["n"]]
+                if a["a"] == "CallOwn":
+                    exc, got = call_indices(st, system, ncpus=2)
+                else:
+                    exc, got = call_indices(st, system, pool=pools[a["p"]])
+                n_calls += 1
+                chk.count(("pool-life", bi, step))
+                if a["a"] == "CallOnClosed":
+                    continue   # named deviation, promised by no property
+                if exc != "None" or not same_bits(got, exp[a["n"]]):
+                    chk.violation(dict(clause="pool-reuse", pool=a.get("p", "own"), action=a["a"]),
+                                  f"call {step + 1} of {[(x['a'], x.get('p')) for x in beh]}: misorientation_indices returned {None if got is None else got.tolist()} ({exc}); per-snapshot values {exp[a['n']].tolist()}",
+                                  dict(kind="pool-life", behaviour=beh, step=step))
+                    break
+                # PoolLife.OnlyClientCloses: every pool the client has not closed is still running
+                closed_by_client = {x["p"] for x in beh[: step + 1] if x["a"] == "ClientClose"}
+                dead = [k for k in pools if k not in closed_by_client and not pool_running(k, pools[k])]
+                if dead or (pools["sched"].shutdown_calls and "sched" not in closed_by_client):
+                    chk.violation(dict(clause="supplied-pool-shut-down", pool=(dead or ["sched"])[0]),
+                                  f"after call {step + 1} ({a}) the client's pool(s) {dead or ['sched']} no longer accept work although only the client may close them (shutdown calls seen by the harness pool: {pools['sched'].shutdown_calls})",
+                                  dict(kind="pool-life", behaviour=beh, step=step))
+                    break
+        finally:
+            for k in ("proc", "thread"):
+                pools[k].terminate()
+                pools[k].join()
+    chk.cov["pool_lifecycle"] = dict(behaviours=len(behs), calls=n_calls)
+    # control: a callee that shuts the borrowed pool down is flagged by the probe
+    p = mpp.ThreadPool(1)
+    with p:
+        pass
+    chk.control("probe-detects-a-pool-shut-down-by-the-callee", not pool_running("thread", p))
+    p.join()
 
 
 # completion-order observation for real pools (evidence only, never a verdict) -------------------
@@ -637,6 +745,8 @@ def main(tier):
         sched=lambda: run_tlc("PoolImap", "PoolImap_sched", workers=w, timeout=300),
         unsched=lambda: run_tlc("PoolImap", "PoolImap_unordered_sched", workers=w, timeout=300),
         scen=lambda: run_tlc("MIndexTrace", "MIndexScen" if quick else "MIndexScen_thorough", workers=w, timeout=300),
+        life=lambda: run_tlc("PoolLife", "PoolLife", workers=2, timeout=300),
+        lifesim=lambda: run_tlc("PoolLife", "PoolLifeSim", workers=1, timeout=300, simulate=f"num={12 if quick else 150}", depth=9, seed=SEED + 14),
     )
     with ThreadPoolExecutor(len(models)) as ex:
         futs = {k: ex.submit(f) for k, f in models.items()}
@@ -653,6 +763,10 @@ def main(tier):
     chk.add_tlc("PoolImap(unordered schedules)", r_us, f"every complete imap_unordered schedule, n<=3 ({len(unordered)}), for the negative control")
     if len(scheds) < 2000 or len({(s["n"], s["w"], tuple(s["ev"])) for s in scheds}) != len(scheds) or len(unordered) < 500:
         raise MachineryError(f"schedule emission incomplete: {len(scheds)} ordered, {len(unordered)} unordered")
+    chk.add_tlc("PoolLife", tlc["life"], "3 client pools, 6 calls: OnlyClientCloses, SuppliedCallsSucceed over all reachable states")
+    life_behs = parse_printed_json(tlc["lifesim"].output, "BEH")
+    if len(life_behs) < 10:
+        raise MachineryError(f"PoolLife emitted only {len(life_behs)} behaviours")
     scen = parse_printed_json(r_sc.output, "SCEN")
     chk.add_tlc("MIndexTrace(scenario table)", r_sc, "lattice system x texture class x size x repetition with the relations to apply; theory scenarios; ASSUMEs on the thresholds")
     scen.sort(key=lambda s: (s["kind"], s["sysno"], s.get("texture", ""), s.get("n", 0), s.get("rep", 0)))
@@ -675,6 +789,7 @@ def main(tier):
         # ---- 3. pool binding (spec -> code)
         pool_schedule_binding(chk, scheds, unordered, tier)
         real_pool_binding(chk, tier, d)
+        pool_lifecycle_binding(chk, life_behs, tier)
         t_pool = time.time()
         # ---- 4. scenarios (code -> spec)
         results = {sid: v for (sid, _), v in run_scenarios(scen, EVAL_WORKERS).items()}
